@@ -217,7 +217,7 @@ type c09world struct {
 	tmpl      string // fixture root (contains data/)
 	tags      []string
 	dedup     bool
-	allMeta   bool
+	uniformMeta bool
 	job       int    // resolved target subprocess invocation
 	node      string // node whose operations form the fault window
 	expInit   map[string]int // canonical row -> count (initial files)
@@ -243,24 +243,51 @@ func newC09World(p *C09Plan, cfg simrt.Config) *c09world {
 		// keep both hour partitions inside one UTC day
 		w.partStart = w.partStart.Truncate(24 * time.Hour).Add(5 * time.Hour)
 	}
-	tagSet := map[string]bool{}
-	w.allMeta = true
+	// Dedup key of the oracle. Which rows may collapse depends on the
+	// metadata of the files that happen to be compacted together (arc unions
+	// the arc:tags of a job's inputs; arc:dedup_time alone means "time"). The
+	// oracle must not assume a particular grouping, so it uses the coarsest key
+	// any job could legitimately use: the tag columns common to every file with
+	// arc:tags, or time alone as soon as one file carries only arc:dedup_time.
+	// uniformMeta (all files carry the same metadata) makes the key exact.
+	w.uniformMeta = true
+	var common map[string]bool
+	timeOnly := false
 	all := append(append([]C09File(nil), p.Files...), p.Late...)
+	sig := func(f *C09File) string {
+		t := ""
+		if f.TagMeta {
+			t = strings.Join(f.tagCols(), ",")
+		}
+		return fmt.Sprintf("%s|%v", t, f.DedupTime)
+	}
 	for i := range all {
 		f := &all[i]
-		if f.TagMeta {
+		tagged := f.TagMeta && len(f.tagCols()) > 0
+		if tagged {
+			cur := map[string]bool{}
 			for _, t := range f.tagCols() {
-				tagSet[t] = true
+				if common == nil || common[t] {
+					cur[t] = true
+				}
 			}
+			common = cur
+		} else if f.DedupTime {
+			timeOnly = true
 		}
-		if (f.TagMeta && len(f.tagCols()) > 0) || f.DedupTime {
+		if tagged || f.DedupTime {
 			w.dedup = true
 		} else {
-			w.allMeta = false
+			w.uniformMeta = false
+		}
+		if sig(f) != sig(&all[0]) {
+			w.uniformMeta = false
 		}
 	}
-	for t := range tagSet {
-		w.tags = append(w.tags, t)
+	if !timeOnly {
+		for t := range common {
+			w.tags = append(w.tags, t)
+		}
 	}
 	sort.Strings(w.tags)
 	for i := range all {
@@ -402,7 +429,7 @@ type verdict struct {
 
 // judge compares what the complete files of the measurement show with what
 // was written.
-func (w *c09world) judge(dataDir string, withLate bool, when string) []verdict {
+func (w *c09world) judge(dataDir string, withLate bool, firstCycle bool, when string) []verdict {
 	var out []verdict
 	exp := map[string]int{}
 	for c, n := range w.expInit {
@@ -416,6 +443,10 @@ func (w *c09world) judge(dataDir string, withLate bool, when string) []verdict {
 	got := map[string]int{}
 	total := 0
 	fileKeysDup := ""
+	// a job whose inputs all carry the same dedup metadata must emit one row
+	// per (tags,time): judged only for the outputs of the fault-free first
+	// cycle, whose inputs are exactly the fixture files
+	strict := firstCycle && w.uniformMeta && w.dedup
 	for _, rel := range listFiles(dataDir) {
 		if !isVisibleParquet(rel) || !strings.HasPrefix(rel, w.p.DB+"/"+w.p.Meas+"/") {
 			continue
@@ -430,7 +461,7 @@ func (w *c09world) judge(dataDir string, withLate bool, when string) []verdict {
 			c := canon(r)
 			got[c]++
 			total++
-			if w.allMeta && strings.HasSuffix(rel, "_compacted.parquet") {
+			if strict && strings.HasSuffix(rel, "_compacted.parquet") {
 				k := dedupKey(r, w.tags)
 				if seen[k] && fileKeysDup == "" {
 					fileKeysDup = filepath.Base(rel)
@@ -440,7 +471,7 @@ func (w *c09world) judge(dataDir string, withLate bool, when string) []verdict {
 		}
 	}
 	if fileKeysDup != "" {
-		out = append(out, verdict{"C09.dedup-not-applied-within-output", fmt.Sprintf("%s: every input carries dedup metadata but compacted output %s holds two rows with the same (tags,time)", when, fileKeysDup)})
+		out = append(out, verdict{"C09.dedup-not-applied-within-output", fmt.Sprintf("%s: every input of the cycle carries the same dedup metadata but compacted output %s holds two rows with the same (tags,time)", when, fileKeysDup)})
 	}
 	if n, err := duckCount(dataDir, w.p.DB, w.p.Meas); err != nil {
 		out = append(out, verdict{"C09.partition-not-scannable", fmt.Sprintf("%s: DuckDB scan of the measurement fails: %s", when, firstLine(err.Error()))})
@@ -653,7 +684,7 @@ func (w *c09world) episode(fp *faultPoint, twin *epResult) *epResult {
 			}
 		}
 		if fp == nil {
-			for _, v := range w.judge(pd.dataDir, false, "after the fault-free first cycle") {
+			for _, v := range w.judge(pd.dataDir, false, true, "after the fault-free first cycle") {
 				ep.verdicts = append(ep.verdicts, v)
 			}
 		}
@@ -700,7 +731,7 @@ func (w *c09world) episode(fp *faultPoint, twin *epResult) *epResult {
 				ep.note = "pod died in a fault-free later cycle"
 				return
 			}
-			for _, v := range w.judge(pd.dataDir, withLate, fmt.Sprintf("after later cycle %d", i+1)) {
+			for _, v := range w.judge(pd.dataDir, withLate, false, fmt.Sprintf("after later cycle %d", i+1)) {
 				ep.verdicts = append(ep.verdicts, v)
 			}
 			simrt.Event("JUDGED cycle=%d files=%d", i+2, len(trk.present))
